@@ -15,7 +15,7 @@ sed -i "s#/repo/programs/whirlpool#$D/repo/programs/whirlpool#g; s#/repo/rust-sd
 if [ -d /verif/harness/target ]; then cp -r /verif/harness/target $D/harness/target; fi
 : > $D/result.txt
 for C in "$@"; do
-  (cd /verif && VERIF_HARNESS=$D/harness VERIF_OUT=$D/out ./check $C --tier ${TIER:-quick} > $D/out/$C.log 2>&1; echo "seed=$SEED check=$C exit=$? $(grep -c ^VIOLATION $D/out/$C.log) violations; $(grep -m1 -A1 ^VIOLATION $D/out/$C.log | tail -1 | cut -c1-300)" >> $D/result.txt)
+  (cd /verif && VERIF_REPO=$D/repo VERIF_HARNESS=$D/harness VERIF_OUT=$D/out ./check $C --tier ${TIER:-quick} > $D/out/$C.log 2>&1; echo "seed=$SEED check=$C exit=$? $(grep -c ^VIOLATION $D/out/$C.log) violations; $(grep -m1 -A1 ^VIOLATION $D/out/$C.log | tail -1 | cut -c1-300)" >> $D/result.txt)
 done
 cat $D/result.txt
 if [ "${KEEP:-0}" != "1" ]; then git -C /repo worktree remove --force $D/repo; rm -rf $D/harness $D/repo; fi
